@@ -328,7 +328,7 @@ EDIT = st.one_of(
     st.tuples(st.just("setdata_df"), st.integers(1, 2)),
     st.tuples(st.just("index_irregular"), st.sampled_from([0.25, -0.1, 7.0])),
     st.tuples(st.just("curve_set"), st.integers(0, 5), st.integers(0, 9), st.sampled_from([1.5, -42.0, 0.0])),
-    st.tuples(st.just("header_set"), st.sampled_from(["W", "P"]), st.integers(0, 9), st.sampled_from(["edited", 17, 2.5, ""])),
+    st.tuples(st.just("header_set"), st.sampled_from(["W", "P"]), st.integers(0, 9), st.sampled_from(["edited", 17, 2.5, "", " padded ", "GEL CHEM  ", "  200"])),
 ).map(list)
 
 
